@@ -45,7 +45,9 @@ META = {
         "del, in-place mutator call, attribute rebinding, or a call of _append_dofs) outside the three layout "
         "primitives is post-dominated by <receiver>._cluster_dofs_gridwise() both towards the normal exits and towards every "
         "explicit `raise` reachable after the write (an exception raised while validating a later item must not leave a live "
-        "object with stale block sizes); __init__ creates empty "
+        "object with stale block sizes); a call of a MixedDimensionalGrid accessor that subscripts the container with its argument "
+        "(read off md_grid.py: subdomain_data, interface_data, ...) counts as such a raise when its key is a grid chosen by the "
+        "caller (parameter / loop over a parameter, not a loop over mdg.subdomains()/interfaces()), unless a `finally` re-clusters; __init__ creates empty "
         "containers; _append_dofs numbers the new block len(_variable_numbers) (read before the insertion) and "
         "appends its size at the END of _variable_num_dofs; every _append_dofs call is dominated by the write of "
         "_variable_dof_type[<same variable>.id]. (R2) _cluster_dofs_gridwise iterates mdg.subdomains() then "
@@ -60,7 +62,10 @@ META = {
         "block order), set_variable_values sizes each slice through the paired number, advances the cursor after "
         "every written block, and every requested variable reaches set_solution_values on every path through the loop body "
         "(empty blocks included); index-space typing: a block number (argmax-1, _variable_numbers[..]) may only subscript "
-        "block-ordered containers (offsets, _variable_num_dofs), never self.variables/_variables (creation order). (R4) block-size formulas pair num_X with get('X'). NOT decided: that the resulting "
+        "block-ordered containers (offsets, _variable_num_dofs), never self.variables/_variables (creation order). (R4) block-size formulas pair num_X with get('X'). (R5) in ad_utils.set_solution_values "
+        "the array stored in a slot that is later accumulated in place (+=) must be created with a floating dtype (or the "
+        "accumulation must be out of place), otherwise the first write fixes the caller's dtype and additive float writes onto an "
+        "integer first write fail. NOT decided: that the resulting "
         "index sets partition 0..num_dofs-1 for a concrete history (the runtime consequence), that mdg.subdomains() "
         "/interfaces() return a stable sorted order (C24), values stored by ad_utils (C08)."),
     "rule_text": ("one obligation per (state write site | _append_dofs call | structural clause of "
@@ -351,8 +356,11 @@ def _check_writer(ctx: Ctx, rel: str, qual: str, fn: ast.FunctionDef) -> int:
             msg = (f"after the write to {recv}.{attr} ({how}) an explicit `raise` can be reached before {recv}.{RECLUSTER}() "
                    f"has run (e.g. the validation of a later loop item fails): the exception leaves _variable_num_dofs / "
                    f"_variable_numbers stale in a live object; re-cluster inside the same iteration or validate before mutating")
+        mode = "" if ok and ok_raise else (" [no re-cluster before normal return]" if not ok else (
+            " [no re-cluster before an implicit KeyError of an md-grid lookup]" if "can raise KeyError" in msg
+            else " [no re-cluster before an explicit raise]"))
         ctx.check("R1", ok and ok_raise, rel, qual, stmt, msg,
-                  construct=f"{how} {recv}.{attr} :: {u(stmt)[:120]}",
+                  construct=f"{how} {recv}.{attr} :: {u(stmt)[:120]}{mode}",
                   desc=f"write to {recv}.{attr} ({how}) is post-dominated by {recv}.{RECLUSTER}() on return and on raise paths",
                   facts={"receiver": recv, "attr": attr, "how": how, "normal_paths": ok, "raise_paths": ok_raise,
                          "recluster_calls": [f"{r}.{RECLUSTER}()" for _, r in rec]})
